@@ -1,7 +1,9 @@
-"""C06 part 2 — emit_args_assignment: the real code's instruction list judged by the Lean machine monitor (used by c06.py).
+"""C06 part 2 — emit_args_assignment (used by c06.py).
 
-There is no Lean *model* of the shuffle yet (see notes/C06.md): this stage is monitor-only – every schedule the real code emits is
-executed on Spec/Machine.lean and must leave every destination holding its argument, extended as required."""
+(1) correspondence: Model/ArgShuffle.lean (init_work_data + emit_args_assignment + emit_arg_move/emit_reg_move/emit_reg_swap) must
+emit exactly the instruction list the real code emits into a Builder, given the frame facts the real FuncFrame reports;
+(2) monitor: every schedule the real code emits is executed on Spec/Machine.lean and must leave every destination holding its
+argument, extended as required."""
 import itertools
 
 import vlib
@@ -68,6 +70,79 @@ def gen_sh(rng, tier):
             vt = [rng.choice([43, 79, 42]) for _ in range(nv)]
             vp = rng.sample(range(0, 8), nv)
             ops.append(sh_line(env, types + vt, dsts + ["r11.%d" % p for p in vp]))
+    ops += gen_sh_model_only(rng, tier)
+    return ops
+
+
+def gen_sh_model_only(rng, tier):
+    """lines aimed at the model/implementation correspondence: frame flags (preserved FP, AVX, AVX-512, dynamic alignment), SA register
+    requests, 32-bit targets, light-call (mask / mmx / vector argument registers), conversions between groups and types"""
+    ops = []
+    nrand = 150 if tier == "quick" else 4000
+    ffs = [0, 1, 2, 4, 0x2000, 0x2001, 0x4002]
+    for ff in ffs:
+        for env in ("x64l", "a64l", "x86l", "x86w"):
+            cc = 7 if env.startswith("x86") else 0
+            regs = {"x64l": [7, 6, 2, 1, 8, 9], "a64l": [0, 1, 2, 3, 4, 5, 6, 7], "x86l": [0, 2, 1], "x86w": [0, 2, 1]}[env]
+            t = 38 if env.startswith("x86") else 40
+            rt = 5 if env.startswith("x86") else 6
+            n = len(regs)
+            ops.append(sh_line(env, [t] * (n + 2), ["r%d.%d" % (rt, regs[1]), "r%d.%d" % (rt, regs[0])] + ["-"] * (n - 2) + ["r%d.%d" % (rt, 3), "s0"], ff, "-", cc))
+            ops.append(sh_line(env, [t] * (n + 1), ["-"] * n + ["r%d.%d" % (rt, regs[0])], ff, str(regs[1]), cc))
+            ops.append(sh_line(env, [t] * (n + 2), ["-"] * n + ["r%d.%d" % (rt, regs[0]), "r%d.%d" % (rt, regs[2])], ff, "-", cc))
+            ops.append(sh_line(env, [43, 79, 42], ["r11.2", "r11.0", "r11.1"], ff, "-", cc))
+            ops.append(sh_line(env, [79] * 10, ["-"] * 8 + ["r11.0", "s16"], ff, "-", cc))
+    # light-call: mask / mmx / vector registers, conversions
+    for cc in (16, 18):
+        for env in ("x64l", "x86l"):
+            ops.append(sh_line(env, [45, 46, 47, 48], ["r16.1", "r16.0", "r16.3", "r16.2"], 0, "-", cc))
+            ops.append(sh_line(env, [49, 50, 50], ["r28.1", "r28.0", "r28.5"], 0, "-", cc))
+            ops.append(sh_line(env, [47, 48, 38], ["r5.3.39", "r16.5", "r16.6.47"], 0, "-", cc))
+            ops.append(sh_line(env, [50, 79, 38], ["r11.5", "r28.3", "r28.4"], 0, "-", cc))
+            ops.append(sh_line(env, [79, 89, 99, 65, 55], ["r11.5", "r12.6", "r13.7", "r11.1.65", "r11.0.55"], 2, "-", cc))
+            ops.append(sh_line(env, [69, 79, 80, 43], ["r11.4.80", "r11.5.70", "r11.6.79", "r11.7.79"], 0, "-", cc))
+    for _ in range(nrand):
+        env = rng.choice(["x64l", "x64l", "a64l", "x86l", "x86w", "x64w"])
+        cc = rng.choice({"x64l": [0, 0, 16, 33], "a64l": [0], "x86l": [0, 2, 7, 16], "x86w": [0, 2, 4, 7], "x64w": [0, 3]}[env])
+        k = rng.randrange(1, 9)
+        ipool = [38, 34, 36, 39] if env.startswith("x86") else [40, 38, 34, 41, 37]
+        pool = ipool * 3 + [43, 42, 79, 79] + ([89, 45, 48, 50] if cc == 16 else [])
+        types = [rng.choice(pool) for _ in range(k)]
+        nreg = 8 if env.startswith("x86") else (16 if env.startswith("x64") else 31)
+        dsts = []
+        used = set()
+        for t in types:
+            r = rng.random()
+            if r < 0.12:
+                dsts.append("-")
+                continue
+            if r < 0.22:
+                dsts.append("s%d" % (16 * len(dsts)) + rng.choice(["", ".%d" % t]))
+                continue
+            isint = t in (34, 35, 36, 37, 38, 39, 40, 41)
+            if t in (45, 48):
+                rt, lim = 16, 8
+            elif t == 50:
+                rt, lim = 28, 8
+            elif isint:
+                rt, lim = rng.choice([5, 6] if not env.startswith("x86") else [5]), nreg
+            else:
+                rt, lim = (12 if t == 89 else 11), (8 if env.startswith("x86") else 16)
+            conv = rng.random() < 0.04
+            if conv:
+                rt = rng.choice([5, 6, 11])          # conversion between groups
+            for _try in range(8):
+                rid = rng.randrange(0, lim)
+                if (rt if rt in (16, 28) else (0 if rt <= 6 else 1), rid) not in used:
+                    break
+            used.add((rt if rt in (16, 28) else (0 if rt <= 6 else 1), rid))
+            dt = ""
+            if rng.random() < 0.3 and isint and not conv:
+                dt = ".%d" % rng.choice([38, 39] + ([] if env.startswith("x86") else [40, 41]))
+            dsts.append("r%d.%d%s" % (rt, rid, dt))
+        ff = rng.choice([0, 0, 0, 1, 2, 4, 0x2000, 0x2001])
+        sa = "-" if rng.random() < 0.85 else str(rng.randrange(0, nreg))
+        ops.append(sh_line(env, types, dsts, ff, sa, cc))
     return ops
 
 
@@ -83,12 +158,14 @@ def sh_key(op, m, ans=""):
     groups = {d.split(".")[0] for d in dsts if d.startswith("r")}
     has_xchg = any(i.startswith("xchg") for i in insts)
     if "dest-of-arg" in m:
-        if env.startswith("a64") and small and any(i.startswith("mov r") for i in insts):
+        if env.startswith("a64") and small:
             return "shuffle:a64-no-extension"
         if has_xchg and len(groups) > 1:
             return "shuffle:cross-group-swap"
         if has_xchg and small:
             return "shuffle:swap-without-extension"
+        if any(i.lstrip("v").startswith("cvt") for i in insts):
+            return "shuffle:float-conversion-inverted"
         return "shuffle:wrong-or-unextended-value:" + env
     return "shuffle:" + " ".join(m.split()[:2])
 
@@ -126,6 +203,27 @@ def run_shuffle(res, h, rng):
         elif m == "refused":
             e = impl[idx[k]].split("|")[0].strip()
             kinds["sh-refused:" + e.split(" sa=")[0]] = kinds.get("sh-refused:" + e.split(" sa=")[0], 0) + 1
+    # ---- correspondence: the Lean model of init_work_data + emit_args_assignment on the same lines, frame facts taken from the header
+    mops, midx = [], []
+    for i, (o, r) in enumerate(zip(ops, impl)):
+        if r == "crash" or " fr=" not in r:
+            continue
+        fr = r.split(" fr=")[1].split()[0].split(".")
+        mops.append("shm" + o[2:] + " # " + " ".join(fr))
+        midx.append(i)
+    mres, rc4, err4 = vlib.run_model("C06", mops)
+    corr = []
+    if len(mres) != len(mops):
+        res.violation("shuffle model protocol failure %d/%d %s" % (len(mres), len(mops), err4[-300:]), {}, False, key="protocol")
+    else:
+        for k, mr in enumerate(mres):
+            r = impl[midx[k]]
+            head, _, insts = r.partition(" | ")
+            canon = head.split(" sa=")[0] + " | " + insts.strip()
+            if canon.strip() != mr.strip():
+                corr.append((ops[midx[k]], canon, mr))
+        kinds["sh-model-compared"] = len(mres)
+    res.coverage["sh_model_vs_impl_compared"] = len(mres)
     res.coverage.setdefault("input_distribution", {}).update(kinds)
     res.coverage["sh_evaluations"] = len(ops)
     res.coverage["sh_nontrivial"] = len({o for o, r in zip(ops, impl) if r.startswith("ok") and r.split("|")[-1].strip()})
@@ -140,4 +238,9 @@ def run_shuffle(res, h, rng):
         i, m = min(lst, key=lambda x: len(ops[x[0]]))
         res.violation("argument shuffle leaves a destination without its (extended) argument (%s, %d inputs): %s -> %s ; monitor: %s"
                       % (key, len(lst), ops[i], impl[i], m), {"ops": [ops[i]], "impl": impl[i], "monitor": m}, True, key=key)
+    res.coverage["sh_model_vs_impl_differences"] = len(corr)
+    if corr:
+        vlib.log("  [sh corr] %d differences, e.g. %r" % (len(corr), min(corr, key=lambda c: len(c[0]))))
+        o, a, b = min(corr, key=lambda c: len(c[0]))
+        return (o, a, b, len(corr))
     return None
